@@ -24,6 +24,11 @@ package verifharness
 //        contract: every leg is a CALL frame; leg = A,<tok>,<amt>  (token.approve(endpoint, amt) by the forwarder)
 //        | S,<dst>,<tok>,<amt>,<receiver>,<feeTok>,<feeAmt>,<call>  (endpoint.crossChainCall by the forwarder, native coin as value);
 //        strict = 1: a failing frame reverts everything)
+//   register <chain> <acct> <rank> <chain>:<tag>*  -> ok      (ClientKeeper.RegisterRelayers on <chain>: REPLACES the entry of <acct>;
+//        <tag> n = the address string 0x..ee00nn the relayer goes by on that chain; <rank> = position of the entry in the
+//        store's iteration order, always (re)computed by the harness)
+//   recv <src> <dst> <seq> [forge] [by<acct>]      (the relay messages are signed by account 0, 8 or 9; light clients are
+//   ack  <src> <dst> <seq> [forge] [by<acct>]       updated by a dedicated account that no registry op touches)
 //   recv <src> <dst> <seq> [forge]                -> ok code=<ack code>|err <dump dst>
 //   ack  <src> <dst> <seq> [forge]                -> ok|err <dump src>
 
@@ -65,6 +70,7 @@ type c03Obs struct {
 	feeTok     common.Address // relay fee escrowed in the packet contract at send time
 	feeAmt     *big.Int
 	feePaid    int // ack steps in which the fee left the escrow towards the relayer
+	regAtRecv  int // registry version of the SOURCE chain when the destination wrote the acknowledgement
 	stuck      bool
 }
 
@@ -77,6 +83,7 @@ type c03Harness struct {
 	// (pair, token) triples whose conservation equation is already broken in this history: only the step that
 	// breaks it is reported (with that step's mechanism), later steps on the same triple are consequences
 	brokenEq map[string]bool
+	regVersion [c03NChains]int // number of registry changes on a chain after the default registration
 }
 
 func (h *c03Harness) name(i int) string { return c03ChainName(i) }
@@ -407,6 +414,42 @@ func c03Min(a, b uint64) uint64 {
 	return b
 }
 
+// trailing flags of a relay op: `forge`, `by<acct>`
+func c03RelayFlags(rest []string) (forge bool, signer int) {
+	for _, t := range rest {
+		if t == "forge" {
+			forge = true
+		} else if strings.HasPrefix(t, "by") {
+			signer = c03Atoi(t[2:])
+		}
+	}
+	return
+}
+
+// canonRegister fills in the store-order rank of the registered account (it depends on this world's random keys).
+func (h *c03Harness) canonRegister(op string) string {
+	f := strings.Fields(op)
+	f[3] = strconv.Itoa(h.w.rank(c03Atoi(f[2])))
+	return strings.Join(f, " ")
+}
+
+// defaultRegistry: on every chain p account 0 relays for every other chain q and goes by W(p,q) there; account 5 is
+// registered with W(q,p) and is therefore the one to be paid for acknowledgements written on q.
+func (h *c03Harness) defaultRegistry() []string {
+	var ops []string
+	for p := 0; p < c03NChains; p++ {
+		var a, b []string
+		for q := 0; q < c03NChains; q++ {
+			if q != p {
+				a = append(a, fmt.Sprintf("%d:%d", q, p*16+q))
+				b = append(b, fmt.Sprintf("%d:%d", q, q*16+p))
+			}
+		}
+		ops = append(ops, fmt.Sprintf("register %d %d 0 %s", p, c03AccUser, strings.Join(a, " ")), fmt.Sprintf("register %d %d 0 %s", p, c03AccRelayer, strings.Join(b, " ")))
+	}
+	return ops
+}
+
 func c03Mech(spec string) string {
 	if strings.HasPrefix(spec, "a:") {
 		return "agent"
@@ -449,6 +492,7 @@ func (h *c03Harness) apply(op string) string {
 		h.obs = map[string]*c03Obs{}
 		h.keys = nil
 		h.brokenEq = map[string]bool{}
+		h.regVersion = [c03NChains]int{}
 		return "ok"
 	}
 	h.hist = append(h.hist, op)
@@ -562,6 +606,22 @@ func (h *c03Harness) apply(op string) string {
 		h.checkPacketSentLogs(c, sendLogs, "send")
 		h.conservedAround(c, "send")
 		return "ok " + after.String()
+	case "register":
+		c, a := c03Atoi(f[1]), c03Atoi(f[2])
+		if c03Atoi(f[3]) != w.rank(a) {
+			r.t.Fatalf("register: rank %s of account %d is not the store order rank %d (use canonRegister)", f[3], a, w.rank(a))
+		}
+		var chains, names []string
+		for _, ct := range f[4:] {
+			g := strings.Split(ct, ":")
+			chains = append(chains, h.name(c03Atoi(g[0])))
+			names = append(names, c03TagString(c03Atoi(g[1])))
+		}
+		w.ch[c].App.XIBCKeeper.ClientKeeper.RegisterRelayers(w.ch[c].GetContext(), sdk.AccAddress(w.acc[a].Bytes()).String(), chains, names)
+		w.coord.CommitBlock(w.ch[c])
+		h.regVersion[c]++
+		r.Count("register")
+		return "ok"
 	case "batch":
 		c, snd, strict := c03Atoi(f[1]), c03Atoi(f[2]), f[3] != "0"
 		before := h.view(c)
@@ -647,7 +707,7 @@ func (h *c03Harness) apply(op string) string {
 	case "recv":
 		s, d := c03Atoi(f[1]), c03Atoi(f[2])
 		q, _ := strconv.ParseUint(f[3], 10, 64)
-		forge := len(f) > 4
+		forge, signer := c03RelayFlags(f[4:])
 		key := c03Key(s, d, q)
 		rec := w.packets[key]
 		var pkt []byte
@@ -687,7 +747,9 @@ func (h *c03Harness) apply(op string) string {
 		credBefore := credited()
 		hadAck := rec != nil && rec.ack != nil
 		var derr error
-		pan, msg := safely(func() { _, derr = w.relayRecv(s, d, q, pkt) })
+		_, signerAddr := w.signerOf(signer)
+		_, signerKnown := w.ch[d].App.XIBCKeeper.ClientKeeper.GetRelayerAddressOnOtherChain(w.ch[d].GetContext(), h.name(s), signerAddr.String())
+		pan, msg := safely(func() { _, derr = w.relayRecv(s, d, q, pkt, signer) })
 		if pan {
 			r.t.Fatalf("panic in recv: %s", msg)
 		}
@@ -697,6 +759,9 @@ func (h *c03Harness) apply(op string) string {
 				r.t.Fatalf("recv accepted without acknowledgement record: %s", op)
 			}
 			r.Count("recv.err")
+			if derr != nil && rec != nil && !forge && !hadAck && w.hasCommitment(s, d, q) && !signerKnown {
+				r.Count("recv.rejected.signer-unregistered") // retried later by a registered relayer
+			}
 			if after.String() != before.String() {
 				h.find("C03:rejected-recv-changed-state", "a rejected MsgRecvPacket changed the chain's views", after.String(), before.String())
 			}
@@ -708,6 +773,10 @@ func (h *c03Harness) apply(op string) string {
 		}
 		o := h.obs[key]
 		o.received, o.ackCode = true, a.Code
+		o.regAtRecv = h.regVersion[s]
+		if signer != c03AccUser {
+			r.Count("recv.ok.other-signer")
+		}
 		o.dstEffect = after.tokenPart != before.tokenPart
 		h.observeNew("nested", true)
 		r.Count(fmt.Sprintf("recv.ok.code%d", a.Code))
@@ -748,7 +817,7 @@ func (h *c03Harness) apply(op string) string {
 	case "ack":
 		s, d := c03Atoi(f[1]), c03Atoi(f[2])
 		q, _ := strconv.ParseUint(f[3], 10, 64)
-		forge := len(f) > 4
+		forge, signer := c03RelayFlags(f[4:])
 		key := c03Key(s, d, q)
 		rec := w.packets[key]
 		var pkt, ack []byte
@@ -780,13 +849,26 @@ func (h *c03Harness) apply(op string) string {
 			outBefore = w.outTokens(s, T, h.name(d))
 			bindBefore = w.binding(s, T, h.name(d)).Amount
 		}
+		// who the source chain's registry says is to be paid for this acknowledgement (read from the real keeper)
+		var recipient common.Address
+		resolvable := false
+		{
+			var a packettypes.Acknowledgement
+			if a.ABIDecode(ack) == nil {
+				if bech, found := w.ch[s].App.XIBCKeeper.ClientKeeper.GetRelayerAddressOnTeleport(w.ch[s].GetContext(), h.name(d), a.Relayer); found {
+					if ra, err := sdk.AccAddressFromBech32(bech); err == nil {
+						recipient, resolvable = common.BytesToAddress(ra), true
+					}
+				}
+			}
+		}
 		var relBefore, escBefore *big.Int
 		if o != nil && o.feeAmt != nil {
-			relBefore = w.balance(s, o.feeTok, w.acc[c03AccRelayer])
+			relBefore = w.balance(s, o.feeTok, recipient)
 			escBefore = w.balance(s, o.feeTok, w.acc[c03AccPacket])
 		}
 		var derr error
-		pan, msg := safely(func() { _, derr = w.relayAck(s, d, q, pkt, ack) })
+		pan, msg := safely(func() { _, derr = w.relayAck(s, d, q, pkt, ack, signer) })
 		if pan {
 			r.t.Fatalf("panic in ack: %s", msg)
 		}
@@ -799,7 +881,15 @@ func (h *c03Harness) apply(op string) string {
 			if o != nil && rec != nil && rec.ack != nil && !forge && o.received && !o.acked && w.hasCommitment(s, d, q) {
 				// the genuine acknowledgement of a packet that is still committed, with its genuine proof
 				r.Count("ack.err.genuine")
-				if o.amount != nil {
+				if !resolvable {
+					// the relayer named in the acknowledgement is not (or no longer) registered on the source: the whole
+					// message is rejected, nothing changes, it can be relayed again after a re-registration
+					if o.ackCode != 0 {
+						r.Count("ack.rejected.relayer-unresolvable.error")
+					} else {
+						r.Count("ack.rejected.relayer-unresolvable.success")
+					}
+				} else if o.amount != nil {
 					// a transfer: if its acknowledgement can not be processed, "delivered (acknowledged)" resp. "refunded"
 					// can never happen for it
 					h.find("C03:genuine-ack-rejected:transfer", fmt.Sprintf("packet %s (ack code %d): the destination's genuine acknowledgement is rejected on the source; commitment, escrow and fee %v stay", key, o.ackCode, o.feeAmt),
@@ -821,14 +911,29 @@ func (h *c03Harness) apply(op string) string {
 		}
 		o.acked = true
 		h.observeNew("nested", true)
+		if h.regVersion[s] != o.regAtRecv {
+			r.Count("ack.ok.after-reregistration")
+		}
+		if signer != c03AccUser {
+			r.Count("ack.ok.other-signer")
+		}
+		if !resolvable {
+			r.Count("ack.ok.relayer-unresolvable") // must not happen: the findings below say what is lost
+		}
 		if o.feeAmt != nil {
 			// the relay fee leaves the escrow exactly once, at the acknowledgement, and reaches the relayer in full
-			dRel := new(big.Int).Sub(w.balance(s, o.feeTok, w.acc[c03AccRelayer]), relBefore)
+			dRel := new(big.Int).Sub(w.balance(s, o.feeTok, recipient), relBefore)
+			if resolvable && o.amount != nil && o.ackCode != 0 && strings.EqualFold(rec.packet.Sender, recipient.String()) {
+				dRel = new(big.Int).Set(o.feeAmt) // the fee recipient is also the refunded sender: only the escrow side is checked
+			}
+			if !resolvable {
+				dRel = big.NewInt(0)
+			}
 			dEsc := new(big.Int).Sub(escBefore, w.balance(s, o.feeTok, w.acc[c03AccPacket]))
 			if dRel.Sign() != 0 || dEsc.Sign() != 0 {
 				o.feePaid++
 			}
-			if dRel.Cmp(o.feeAmt) != 0 || dEsc.Cmp(o.feeAmt) != 0 || o.feePaid > 1 {
+			if dRel.Cmp(o.feeAmt) < 0 || dEsc.Cmp(o.feeAmt) != 0 || o.feePaid > 1 /* the payee may receive more in the same transaction: a refund or an agent callback to the same account */ {
 				h.find("C03:fee-not-paid-once", fmt.Sprintf("packet %s: fee %s, relayer received %s, escrow released %s, paid %d times", key, o.feeAmt, dRel, dEsc, o.feePaid),
 					fmt.Sprint(dRel, dEsc, o.feePaid), "fee paid to the relayer exactly once")
 			}
@@ -898,13 +1003,22 @@ func TestC03(t *testing.T) {
 	r := NewRec(t, "C03")
 	defer r.Close()
 	h := &c03Harness{r: r}
-	run := func(ops []string) {
-		for _, op := range ops {
+	var run func(ops []string)
+	run = func(ops []string) {
+		for i, op := range ops {
 			if strings.HasPrefix(op, "#") {
 				continue
 			}
+			if strings.HasPrefix(op, "register ") {
+				op = h.canonRegister(op)
+			}
 			out := h.apply(op)
 			r.Op(op, out)
+			if op == "reset" && !(i+1 < len(ops) && strings.HasPrefix(ops[i+1], "register ")) {
+				// the default relayer registration (a history that starts with its own register ops defines everything itself)
+				run(h.defaultRegistry())
+				h.regVersion = [c03NChains]int{}
+			}
 			if !strings.HasPrefix(op, "reset") && !strings.HasPrefix(op, "deploy") && !strings.HasPrefix(op, "bind") {
 				r.Nontrivial(strings.Join(h.hist, ";"))
 			}
